@@ -94,7 +94,7 @@ def db_tags(db):
 class Setup:
     """Runs Config -> Scheme -> KeyGen -> EDBSetup on the real classes; records the phase of any exception."""
 
-    def __init__(self, scheme, cfg, db, sse_obj=None):
+    def __init__(self, scheme, cfg, db, sse_obj=None, key=None):
         """sse_obj: an existing scheme object built from an identical configuration (object reuse across databases
         and keys: the result must not depend on what the object was used for before)."""
         self.scheme_name, self.cfg, self.db = scheme, cfg, db
@@ -104,7 +104,7 @@ class Setup:
         try:
             self.sse = sse_obj if sse_obj is not None else self.L.SSEScheme(cfg)
             self.phase = "keygen"
-            self.key = self.sse.KeyGen()
+            self.key = key if key is not None else self.sse.KeyGen()
             self.phase = "edbsetup"
             self.edb = self.sse.EDBSetup(self.key, db)
             self.phase = "ready"
